@@ -7,7 +7,9 @@ Model/C11RoundTrip.v:rt_pkg P (import, slice resolution, export).  Streams: corp
 generator, the primitive / external-module parameter space, twins (several instances of one external module / primitive
 whose parameter values are equal under Python's == but different in the package: the importer must not let an earlier
 instance decide a later one; coverage classes measured by the driver, fail closed), enumeration tables and names against
-the live functions, pyeq (Model/C11Share.v:py_eq against the live ==).
+the live functions, pyeq (Model/C11Share.v:py_eq against the live ==), history / history_decls (several exports in one
+interpreter over ExternalModule objects MUTATED in between: every returned package must round-trip and declare each external
+module as the object is at that moment - Model/C11History.v, Corr/C11.v:chk_hist; change classes measured, fail closed).
 """
 import json, os, subprocess, itertools, time
 from decimal import Decimal
